@@ -1,0 +1,28 @@
+//go:build verif
+
+package api
+
+// VerifCrashAt selects the durable write (counted from 1) before which VerifCrashPoint simulates a
+// crash by panicking with VerifCrash; zero disables it.
+var VerifCrashAt int
+
+// VerifCrashed reports whether a crash was simulated since the last VerifCrashReset.
+var VerifCrashed bool
+
+var verifCrashCount int
+
+// VerifCrash is the panic value of a simulated crash.
+type VerifCrash struct{}
+
+// VerifCrashPoint marks a point right before a durable write (a batch flush or a metadata commit)
+// of a node database and simulates a crash at the selected one.
+func VerifCrashPoint() {
+	verifCrashCount++
+	if VerifCrashAt != 0 && verifCrashCount == VerifCrashAt {
+		VerifCrashed = true
+		panic(VerifCrash{})
+	}
+}
+
+// VerifCrashReset resets the crash point counter.
+func VerifCrashReset() { verifCrashCount, VerifCrashed = 0, false }
